@@ -87,8 +87,19 @@ def prove(cond, name):
             for piv, rhs in C.subst.items():
                 env[piv] = _pe(rhs, env)
             if all(_pe(q, env) for q in rel) and not _pe(p, env):
+                # the random point must be a point of the WHOLE path condition, with every defined atom recomputed from its
+                # definition, before it counts as a counter-model (a clause that holds only modulo facts outside `rel` is
+                # left to the decision procedures below)
+                full = complete_model({a: env[a] for a in free}, rel)
+                chk = {a: v for a, v in full.items() if not isinstance(a, int) or (a not in C.gates and a not in C.subst)}
+                try:
+                    genuine = not _pe(p, chk) and all(_pe(q, chk) for q in C.pc_other)
+                except KeyError:
+                    genuine = False
+                if not genuine:
+                    continue
                 LOG.append((name, "REFUTED-random", time.time() - t0))
-                raise Refuted(name, complete_model({a: env[a] for a in free}, rel))
+                raise Refuted(name, full)
         except KeyError:
             break
         except core_Undecided as e:  # (integer-valued atoms: no random search)
